@@ -214,11 +214,23 @@ Definition first_some {A B} (f : A -> option B) : list A -> option B :=
     | x :: r => match f x with Some y => Some y | None => go r end
     end.
 
-(* errutil.As: the node assigned to the target (no type of the universe has an As method) *)
+(* an As(interface{}) bool method of the node accepts the target: the value it stores there.
+   The one type of the universe with such a method is the harness' *ut.WAs, which
+   fills a *ut.Val target. *)
+Definition as_method (e : err) (t : as_target) : option err :=
+  match e, t with
+  | Wrap _ (WUser UWAs msg _) _, ATType n =>
+    if str_eqb n (lit "verifharness/ut/ut.Val") then Some (Leaf 1%positive (LUser ULVal msg 503%Z [])) else None
+  | _, _ => None
+  end.
+
+(* errutil.As: the value assigned to the target: the node itself when its type is
+   assignable, else what the node's own As method stores, else look further *)
 Fixpoint as_ (e : err) (t : as_target) : option err :=
   if assignable e t then Some e else
+  match as_method e t with Some v => Some v | None =>
   match e with
   | Wrap _ _ c | Second _ c _ | OWrap _ _ _ _ c => as_ c t
   | Multi _ _ cs | OLeaf _ _ _ cs => first_some (fun m => as_ m t) cs
   | _ => None
-  end.
+  end end.
